@@ -149,7 +149,7 @@ let parse_case (line : string) =
                   | _ -> failwith "generic entry") (String.split_on_char ';' row))
               (String.split_on_char '/' rows)) in
         groups := { g_id = id; g_meta = meta_of f; g_generic = generic } :: !groups
-      | "X" | "P" | "F" | "M" | "N" | "E" | "O" -> ()
+      | "X" | "P" | "F" | "M" | "N" | "E" | "O" | "V" -> ()
       | x -> failwith ("bad item " ^ x)
     end) (String.split_on_char ' ' line);
   let toks = String.split_on_char ' ' line in
@@ -254,9 +254,9 @@ let model_run (line : string) : string =
           String.concat ";" (List.sort compare (List.map (fun l -> enc (ts l)) (lines acts))) ^ "!" ^ status p
         end else canon_terse (run cfg0 ListTerse)
       | 'D' -> dump_of benches groups
-      | 'O' ->
-        (* the options as written, as the generator recorded them in the case *)
-        (match List.find_opt (fun t -> String.length t > 1 && t.[0] = 'O' && t.[1] = ',') (String.split_on_char ' ' line) with
+      | 'O' | 'V' ->
+        (* the options as written / as they resolve, as the generator recorded them in the case *)
+        (match List.find_opt (fun t -> String.length t > 1 && t.[0] = act && t.[1] = ',') (String.split_on_char ' ' line) with
          | Some t -> String.sub t 2 (String.length t - 2)
          | None -> "no-options-item")
       | 'K' -> ""   (* marker: the case has a module / generic function name clash *)
@@ -492,6 +492,14 @@ let c12_sb (line : string) : string =
         let missing = List.filter (fun x -> not (List.mem x got)) exp and extra = List.filter (fun x -> not (List.mem x exp)) got in
         bad ("listed-benchmarks-differ-from-the-program missing=" ^ String.concat "+" missing ^ " unexpected=" ^ String.concat "+" extra)
       end
+    | 'V' ->
+      (* every bench_group contributes its options: counters resolve per kind, benchmark over inner group over outer group *)
+      let expected = match List.find_opt (fun t -> String.length t > 1 && t.[0] = 'V' && t.[1] = ',') (String.split_on_char ' ' case) with
+        | Some t -> items_of (dec (String.sub t 2 (String.length t - 2))) | None -> [] in
+      let got = items_of (dec body) in
+      if got <> expected then
+        bad ("resolved-counters-differ-from-the-written-options missing=" ^ String.concat "+" (List.filter (fun x -> not (List.mem x got)) expected)
+             ^ " unexpected=" ^ String.concat "+" (List.filter (fun x -> not (List.mem x expected)) got))
     | 'O' ->
       (* "options as written": what the registry holds for every entry is what the program says *)
       let expected = match List.find_opt (fun t -> String.length t > 1 && t.[0] = 'O' && t.[1] = ',') (String.split_on_char ' ' case) with
